@@ -84,11 +84,13 @@ def run(tier, seed):
         plan = [(seq[::7] + conc[::3] + dmg[::2], 1, 0), (seq[3::11] + conc[1::5] + dmg[1::3], 0, 1)]
     else:
         plan = [(seq + conc + dmg, 2, 0), (seq[::2] + conc + dmg, 1, 1)]
+    bt = lambda cs: [dict(c, batch=True) for c in cs]     # several answers per reactor turn (grid.Sched.batch)
+    plan += [(bt(seq[1::2] + conc[::2] + dmg), 0, 0), (bt(seq[2::9] + conc[2::4] + dmg[::3]), 1, 0)] if tier == "quick" else [(bt(seq + conc + dmg), 1, 0), (bt(seq[::3] + conc[::2] + dmg), 0, 1)]
     desc = []
     for (sel, d, f) in plan:
         sel = [dict(c, fault_kinds=faults if f else []) for c in sel]
         res.merge(common.pmap(lib_imm.explore_chunk, sel, (seed, d, f, 6000, "C46"), chunks=len(sel)))
-        desc.append("%d cases at d<=%d,f<=%d" % (len(sel), d, f))
+        desc.append("%d cases at d<=%d,f<=%d%s" % (len(sel), d, f, " (several answers per reactor turn)" if sel and sel[0].get("batch") else ""))
     d = max(p[1] for p in plan)
     f = max(p[2] for p in plan)
     cov = lib_imm.coverage_from(res, "every read sequence / concurrent pair x bad segment and every damage case at the default schedule (%d executions); then every schedule within the bounds for: %s (d = deviations incl. early timers, f = injected faults of kinds %r)" % (n0, "; ".join(desc), faults),
